@@ -55,6 +55,6 @@ PROP = {'suites': ['c04fn', 'c04flow', 'c04reg'],
          'resources_within_grant); scenarioJwtBearerMatrix in c04flow: every client kind incl. no client identification x client authentication required or not x credential x assertion x scopes '
          'inside / outside the registration x resources, then introspection, userinfo and refresh of every issued token. The anonymous client is built once per PROCESS by the code (sync.Once): the '
          'harness resets it per world (harness/jwtb_anon.go), the model describes one provider per process. identity_truthful is covered by correspondence (sub/client_id compared at introspection '
-         'and userinfo) and monitor clauses 1 and 3 (owner-less grants: also the subject). Round 4: the embedder\'s ValidateBackAuthFunc may also approve AND narrow the stored grant at that moment (verdict BaNarrow: granted scopes become `openid`); polls with that verdict are judged against the narrowed grant (Monitors.poll_gi), scenario ciba-narrowed-at-approval runs on every seed.',
+         'and userinfo) and monitor clauses 1 and 3 (owner-less grants: also the subject). Round 4: the embedder\'s ValidateBackAuthFunc may also approve AND narrow the stored grant at that moment (verdict BaNarrow: granted scopes become `openid`); polls with that verdict are judged against the narrowed grant (Monitors.poll_gi), scenario ciba-narrowed-at-approval runs on every seed. Theorem ciba_grant_fixed_at_approval (Proofs/C04Narrow.v): for every store and poll with that verdict, tokens only if the named scopes lie inside the narrowed grant; the stored grant has the narrowed scopes as granted scopes; example ciba_narrowing_example evaluates three polls (narrow+dropped scope refused, narrow+no scope served, approve+same scope served).',
  'technique': 'Coq proof (invariant by induction over operation histories + decision-rule equivalence) tied to the code by differential correspondence on generated inputs',
  'design_ref': 'DESIGN.md section 6, C04'}
